@@ -1,4 +1,4 @@
-CONSTANTS BigSizes = {4095, 4096, 4097, 8191, 8192, 8193, 65537}
+CONSTANTS BigSizes = {4095, 4096, 4097, 8191, 8192, 8193, 65537, 4194305}
 TripleStride = 1
 INIT GenInit
 NEXT GenNext
